@@ -19,7 +19,7 @@ Inter(x, y) == ToSet(x) \cap ToSet(y)
 
 \* attributes an action targets directly (everything else must be carried over untouched)
 Touched(CT, c, a) == IF a.op = "reset_top" THEN AttrSet(CT, c)
-                     ELSE (IF "attr" \in DOMAIN a THEN {a.attr} ELSE {}) \cup (IF a.op = "update_top" THEN KwNames(a.kw) ELSE {})
+                     ELSE (IF "attr" \in DOMAIN a THEN {a.attr} ELSE {}) \cup (IF a.op = "update_top" THEN KwNames(a.kw) ELSE {}) \cup (IF a.op \in {"update_repl", "construct"} THEN AttrSet(CT, c) ELSE {})
                           \cup (IF a.op = "transform_top" THEN KwNames(a.kwf) ELSE {})
 
 \* the model is only asked about receivers whose state it can represent: an ill-typed pre-state (left behind by an earlier call, which is
@@ -36,7 +36,8 @@ Failing(e) ==
       got == IF e.same \/ a.op = "read" THEN e.recv_post ELSE e.result
   IN
      (IF cow /\ ~fro /\ ~dncc /\ ~unchanged THEN {"c01_receiver_changed"} ELSE {})
-  \cup (IF ~e.args_same THEN {"c01_argument_changed"} ELSE {})
+  \* (an instance of a do_not_copy=True class is by declaration edited in place by every helper, also when it is the REPLACEMENT handed to update)
+  \cup (IF ~e.args_same /\ ~(a.op = "update_repl" /\ dncc) THEN {"c01_argument_changed"} ELSE {})
   \* (identity transforms hand the receiver's own object back: excluded by the property's quantifier)
   \cup (IF cow /\ ~dncc /\ e.res = "ok" /\ ~e.same /\ e.result_kind = "obj" /\ ~("f" \in DOMAIN a /\ a.f = "same")
            /\ ~(Inter(e.tok_res, e.tok_recv) \subseteq ToSet(e.tok_args) \cup ToSet(e.tok_dnc)) THEN {"c02_shared_mutable_state"} ELSE {})
